@@ -88,8 +88,11 @@ func NewTreePersistent(path string) (*Tree, error) {
 // in-memory, but are lost when loading from disk.
 func (t *Tree) reinit() {
 	// Calculate t.nextPage by finding the first node whose pageID is not set.
+	// Only pages that lie entirely within the mapped data can be looked at: the
+	// data starts after the buffer's padding, so the last page of the file is
+	// cut short.
 	t.nextPage = 1
-	for int(t.nextPage)*pageSize < len(t.data) {
+	for int(t.nextPage+1)*pageSize <= len(t.data) {
 		n := t.node(t.nextPage)
 		if n.pageID() == 0 {
 			break
